@@ -124,12 +124,17 @@ def critical(o, targets, crit):
 
     if crit[0] == "xy":
         return L.And(abs(o.ex) < thr(crit[1]), abs(o.ey) < thr(crit[2]))
+    if crit[0] == "xy_uuid":  # x/y box plus a list of critical ground-truth ids (judged on ground truths only)
+        return L.And(abs(o.ex) < thr(crit[1]), abs(o.ey) < thr(crit[2]), (o.uuid in crit[3]) if o.is_gt else True)
     d2 = o.ex * o.ex + o.ey * o.ey
     tmax, tmin = thr(crit[1]), thr(crit[2])
     return L.And(d2 < tmax * tmax, d2 > tmin * tmin)
 
 
 def crit_config(cfg, target_names, crit):
+    if crit[0] == "xy_uuid":
+        return CriticalObjectFilterConfig(cfg, target_names, max_x_position_list=list(crit[1]),
+                                          max_y_position_list=list(crit[2]), target_uuids=list(crit[3]))
     if crit[0] == "xy":
         return CriticalObjectFilterConfig(cfg, target_names, max_x_position_list=list(crit[1]),
                                           max_y_position_list=list(crit[2]))
